@@ -359,8 +359,10 @@ def run_case(w, prog, db, dbname, dialect, src=None, want_rq=True, user_names=No
         excl = excluded_names(prog)
         if excl and any(x in excl and act.count(x) > exp.count(x) for x in set(act)):
             o.symptoms = [(p_, (s_ + "+excluded_present") if p_ == "C05" and "+" not in s_ and s_ != "excluded_columns_present" else s_, d_) for (p_, s_, d_) in o.symptoms]
-    if frame == [] and len(o.cols) == 1:
-        # a relation without columns cannot be written in SQL: the compiler emits one placeholder column (SELECT NULL)
+    if frame == [] and len(o.cols) == 1 and not [n for n in exp if n is not None]:
+        # a relation without (named) columns cannot be written in SQL: the compiler emits one placeholder column
+        # (SELECT NULL).  Only when the MODEL's frame has no named column either: a defect that empties the compiler's
+        # frame of a relation that should have columns stays a column_count violation
         o.symptoms = [(p_, "zero_column_frame" if p_ == "C05" and s_ in ("rq_frame_count", "column_count") else s_, d_) for (p_, s_, d_) in o.symptoms]
     # ---- C01 / C03: rows
     if not aligned and prefix_rows is not None:
